@@ -1,0 +1,107 @@
+//! Read-only snapshot of the private indexes of a `Graph`.
+//! Only compiled with the `verif_hooks` feature; used by the external
+//! verification harness, never by the library itself.
+use super::Graph;
+use std::fmt::Display;
+use std::hash::Hash;
+
+/// (u, v, weight, attributes) of one stored edge
+pub type VerifEdge<T, A> = (T, T, f64, Option<A>);
+
+/// An owned copy of every private index of a `Graph`. Hash-ordered collections
+/// are returned sorted by key, `Vec`-backed ones in their stored order.
+pub struct VerifSnapshot<T, A> {
+    pub nodes_vec: Vec<(T, Option<A>)>,
+    pub nodes_map: Vec<(T, usize)>,
+    pub nodes_map_rev: Vec<(usize, T, Option<A>)>,
+    pub edges: Vec<((T, T), Vec<VerifEdge<T, A>>)>,
+    pub edges_map: Vec<((usize, usize), Vec<VerifEdge<T, A>>)>,
+    pub successors: Vec<(T, Vec<T>)>,
+    pub successors_map: Vec<(usize, Vec<usize>)>,
+    pub successors_vec: Vec<Vec<(usize, f64)>>,
+    pub predecessors: Vec<(T, Vec<T>)>,
+    pub predecessors_map: Vec<(usize, Vec<usize>)>,
+    pub predecessors_vec: Vec<Vec<(usize, f64)>>,
+}
+
+impl<T, A> Graph<T, A>
+where
+    T: Eq + Clone + PartialOrd + Ord + Hash + Send + Sync + Display,
+    A: Clone,
+{
+    pub fn verif_snapshot(&self) -> VerifSnapshot<T, A> {
+        let edge = |e: &std::sync::Arc<crate::Edge<T, A>>| -> VerifEdge<T, A> {
+            (e.u.clone(), e.v.clone(), e.weight, e.attributes.clone())
+        };
+        let mut nodes_map: Vec<(T, usize)> =
+            self.nodes_map.iter().map(|(k, v)| (k.clone(), *v)).collect();
+        nodes_map.sort();
+        let mut nodes_map_rev: Vec<(usize, T, Option<A>)> = self
+            .nodes_map_rev
+            .iter()
+            .map(|(k, n)| (*k, n.name.clone(), n.attributes.clone()))
+            .collect();
+        nodes_map_rev.sort_by(|a, b| a.0.cmp(&b.0));
+        let mut edges: Vec<((T, T), Vec<VerifEdge<T, A>>)> = self
+            .edges
+            .iter()
+            .map(|(k, v)| (k.clone(), v.iter().map(edge).collect()))
+            .collect();
+        edges.sort_by(|a, b| a.0.cmp(&b.0));
+        let mut edges_map: Vec<((usize, usize), Vec<VerifEdge<T, A>>)> = self
+            .edges_map
+            .iter()
+            .flat_map(|(u, hm)| {
+                hm.iter()
+                    .map(move |(v, es)| ((*u, *v), es.iter().map(edge).collect()))
+            })
+            .collect();
+        edges_map.sort_by(|a, b| a.0.cmp(&b.0));
+        let by_name = |m: &std::collections::HashMap<T, std::collections::HashSet<T>>| {
+            let mut out: Vec<(T, Vec<T>)> = m
+                .iter()
+                .map(|(k, hs)| {
+                    let mut v: Vec<T> = hs.iter().cloned().collect();
+                    v.sort();
+                    (k.clone(), v)
+                })
+                .collect();
+            out.sort();
+            out
+        };
+        let by_index = |m: &nohash::IntMap<usize, nohash::IntSet<usize>>| {
+            let mut out: Vec<(usize, Vec<usize>)> = m
+                .iter()
+                .map(|(k, hs)| {
+                    let mut v: Vec<usize> = hs.iter().cloned().collect();
+                    v.sort();
+                    (*k, v)
+                })
+                .collect();
+            out.sort();
+            out
+        };
+        let adj = |vv: &Vec<Vec<crate::AdjacentNode>>| -> Vec<Vec<(usize, f64)>> {
+            vv.iter()
+                .map(|v| v.iter().map(|a| (a.node_index, a.weight)).collect())
+                .collect()
+        };
+        VerifSnapshot {
+            nodes_vec: self
+                .nodes_vec
+                .iter()
+                .map(|n| (n.name.clone(), n.attributes.clone()))
+                .collect(),
+            nodes_map,
+            nodes_map_rev,
+            edges,
+            edges_map,
+            successors: by_name(&self.successors),
+            successors_map: by_index(&self.successors_map),
+            successors_vec: adj(&self.successors_vec),
+            predecessors: by_name(&self.predecessors),
+            predecessors_map: by_index(&self.predecessors_map),
+            predecessors_vec: adj(&self.predecessors_vec),
+        }
+    }
+}
